@@ -177,6 +177,27 @@ func (t *T) mentionsConn(e ast.Node) bool {
 	return found
 }
 
+// does the expression mention the object that holds the connection (c.session for ConnSel "session.Connection")?
+// A local assigned from it is an alias through which the connection can be reached after the lock is gone.
+func (t *T) mentionsConnHolder(e ast.Node) bool {
+	found := false
+	ast.Inspect(e, func(n ast.Node) bool {
+		switch x := n.(type) {
+		case *ast.FuncLit:
+			return false
+		case *ast.SelectorExpr:
+			c := chain(x)
+			for _, s := range t.spec.ConnSel {
+				if i := strings.LastIndex(s, "."); i >= 0 && c == t.recv+"."+s[:i] {
+					found = true
+				}
+			}
+		}
+		return !found
+	})
+	return found
+}
+
 // effects of evaluating expression e, in order.
 func (t *T) exprEffects(e ast.Node, lhs bool) []effect {
 	var out []effect
@@ -202,9 +223,14 @@ func (t *T) exprEffects(e ast.Node, lhs bool) []effect {
 				m := t.methods[t.spec.Recv+"."+last]
 				// admission gates: a designated test / mark call inside a designated function is an access
 				// to a gate variable of its own (ws: the Listening test-and-set in Listen)
-				if len(x.Args) == 1 {
-					if v := t.spec.GateCalls[t.curFn+":"+last+"("+chain(x.Args[0])+")"]; v != "" {
+				if len(x.Args) <= 1 {
+					a0 := ""
+					if len(x.Args) == 1 {
+						a0 = chain(x.Args[0])
+					}
+					if v := t.spec.GateCalls[t.curFn+":"+last+"("+a0+")"]; v != "" {
 						out = append(out, effect{op: "write", arg: v, src: t.src(x)})
+						t.facts["gate:"+v] = append(t.facts["gate:"+v], t.curFn+":"+last)
 					}
 				}
 				out = append(out, effect{inline: m, inlineRecv: recvNameOf(m), src: t.src(x)})
@@ -410,7 +436,7 @@ func (t *T) noteTaint(lhs []ast.Expr, rhs []ast.Expr) {
 		} else if len(rhs) == 1 {
 			r = rhs[0]
 		}
-		if r != nil && t.mentionsConn(r) {
+		if r != nil && (t.mentionsConn(r) || t.mentionsConnHolder(r)) {
 			t.taint[id.Name] = true
 		}
 	}
@@ -725,6 +751,33 @@ func translate(repo string, spec *TypeSpec) ([]Instr, []string, map[string][]str
 	// frame-writing / frame-reading calls on the underlying connection anywhere else in the package (constructors and
 	// the closures they install as handlers, methods of other types): those are not nodes of the graph above, so no
 	// lock is known to be held around them
+	// plain stores to a designated state word (x.f = e, as opposed to x.f |= e / x.f ^= e): a value computed from an
+	// earlier snapshot overwrites what other goroutines changed in between, whatever lock is held around the store
+	for field := range spec.Fields {
+		if strings.Contains(field, ".") || spec.Fields[field] != "connState" {
+			continue
+		}
+		key := "plainstore:" + field
+		t.facts[key] = []string{}
+		for name, fd := range methods {
+			if !strings.HasPrefix(name, spec.Recv+".") {
+				continue
+			}
+			rn := recvNameOf(fd)
+			ast.Inspect(fd.Body, func(n ast.Node) bool {
+				as, ok := n.(*ast.AssignStmt)
+				if !ok || as.Tok != token.ASSIGN {
+					return true
+				}
+				for _, l := range as.Lhs {
+					if chain(l) == rn+"."+field {
+						t.facts[key] = append(t.facts[key], strings.TrimPrefix(name, spec.Recv+"."))
+					}
+				}
+				return true
+			})
+		}
+	}
 	if len(spec.WireOps) > 0 {
 		t.facts["outside:wire"] = []string{}
 		scan := func(label string, fd *ast.FuncDecl) {
@@ -1047,9 +1100,10 @@ func main() {
 			Fields: map[string]string{"session": "session", "err": "err"}},
 		{Dir: "fluent/client/ws", Recv: "connection", Out: "wsConn",
 			Locks: map[string]int{"closeLock": 3, "listenLock": 4, "writeLock": 5, "stateLock": 6},
-			Vars:  map[string]int{"connState": 4, "wswrite": 5, "wsread": 6, "listenGate": 7},
+			Vars:  map[string]int{"connState": 4, "wswrite": 5, "wsread": 6, "listenGate": 7, "closeGate": 8},
 			GateCalls: map[string]string{"Listen:hasConnState(ConnStateListening)": "listenGate",
-				"Listen:setConnState(ConnStateListening)": "listenGate"},
+				"Listen:setConnState(ConnStateListening)": "listenGate",
+				"CloseWithMsg:Closed()": "closeGate", "CloseWithMsg:unsetConnState(ConnStateOpen)": "closeGate"},
 			Fields: map[string]string{"connState": "connState"},
 			// every method of the underlying websocket connection that writes frames / reads frames
 			WireOps: map[string]string{"WriteMessage": "wswrite", "NextWriter": "wswrite", "WriteControl": "wswrite",
